@@ -85,7 +85,7 @@ impl Check for C09 {
     }
     fn decode(&self, tape: &[u8], _stream: usize) -> Value {
         let mut t = Tape::new(tape);
-        let file = *t.pick(&["/app/src/gen.js", "gen.js", "/a b/ñ/gen file.js", "./rel/x.y.js", "C:\\\\dir\\\\win.js", "/deep/a/b/c/d/e.mjs", "noext"]);
+        let file = *t.pick(&["/app/src/gen.js", "gen.js", "/a b/ñ/gen file.js", "./rel/x.y.js", "C:\\\\dir\\\\win.js", "/deep/a/b/c/d/e.mjs", "noext", "/app/lib/issue#12.js", "/app/c#/string-utils.js", "/app/a.mjs?iitm=true", "/app/%41/b c.js"]);
         let comments = t.flag();
         let mut cfg = gen_cfg(&mut t, &CfgOpts { fixed_prefix: true, rich: true });
         let mut j = cfg.json.clone();
@@ -235,7 +235,12 @@ impl Check for C09 {
 fn gen_original_map(t: &mut Tape, src: &str) -> (Map, Value) {
     let table = LineTable::new(src);
     let nsrc = 1 + t.below(3);
-    let sources: Vec<String> = (0..nsrc).map(|i| [format!("../src/orig{i}.ts"), format!("orig{i}.ts"), format!("webpack://pkg/./lib/o{i}.ts")][t.below(3)].clone()).collect();
+    let mut sources: Vec<String> = (0..nsrc).map(|i| [format!("../src/orig{i}.ts"), format!("orig{i}.ts"), format!("webpack://pkg/./lib/o{i}.ts")][t.below(3)].clone()).collect();
+    if nsrc > 1 && t.chance(40) {
+        // the same source listed twice (legal, produced by some bundlers)
+        let first = sources[0].clone();
+        sources[nsrc - 1] = first;
+    }
     let nnames = t.below(4);
     let names: Vec<String> = (0..nnames).map(|i| format!("name{i}")).collect();
     let source_root = match t.below(4) {
@@ -474,13 +479,25 @@ impl Check for C10 {
                     o.and_then(|s| s.src.map(|(si, l, c, n)| (orig.source_name(si), l, c, n.and_then(|i| orig.names.get(i as usize).cloned()))))
                 };
                 let got = f.and_then(|s| s.src.map(|(si, l, c, n)| (f_map.source_name(si), l, c, n.and_then(|i| f_map.names.get(i as usize).cloned()))));
+                let sourceless_expected = acceptable.iter().any(|acc| acc.map(|s| s.src.is_none()).unwrap_or(false));
+                if sourceless_expected && f.is_none() && acceptable.iter().all(|acc| acc.map(|s| s.src.is_none()).unwrap_or(true)) {
+                    // the composed position must not fall through to the preceding token
+                    if let Some(prev) = f_map.lookup_glb(rs.gen_line, rs.gen_col) {
+                        if prev.src.is_some() {
+                            return Outcome::fail(
+                                "composition-sourceless-dropped",
+                                format!("generated {}:{} composes to a token without source, but the trailer has no segment there: it resolves to the preceding token {:?}", rs.gen_line, rs.gen_col, prev.src),
+                            );
+                        }
+                    }
+                }
                 let ok = acceptable.iter().any(|acc| {
                     let want = describe(*acc);
                     match (&want, &got) {
                         (None, None) => true,
                         (Some(w), Some(g)) => w == g,
-                        // an original segment without source information: the composed segment may be dropped
-                        _ => acc.map(|s| s.src.is_none()).unwrap_or(true) && got.is_none(),
+                        // nothing to look up in the original map at all: no composed segment is fine
+                        _ => acc.is_none() && got.is_none(),
                     }
                 });
                 if !ok {
